@@ -10,10 +10,11 @@ import random
 from pathlib import Path
 
 from . import gen, rawread
-from .conc import Shared, gen_policy, writer_main
+from .conc import Shared, gen_policy, reader_main, writer_main
 from .core import SIM, HarnessError, install
 from .hist import classify_exception, drop_scratch, new_scratch, short_tb
 from .oracles import check_views
+from . import rsyncsim
 from .rsyncsim import make_manager_class
 from .sched import Scheduler
 from .world import DEFAULT_KNOBS, Knobs, Side, Violation, World, make_config, make_pool_specs
@@ -81,6 +82,7 @@ def patch_backup_utils():
 
     def dump(src, dst):
         SIM.point('sqlite.backup', src, False)
+        rsyncsim.CLOCK.stamp(str(src))  # the live index carries a logical mtime too (see rsyncsim docstring)
         return orig_dump(src, dst)
 
     backup_utils._sqlite_backup = dump  # pylint: disable=protected-access
@@ -111,6 +113,13 @@ def generate(prop, seed, tier='quick'):
         op.setdefault('c', rng.randrange(len(pool)))
         pops.append(op)
     actors.append({'name': 'p', 'role': 'packer', 'ops': pops})
+    if rng.random() < 0.6:
+        # a client that keeps the container open for the whole run (its SQLite connection keeps the WAL alive)
+        rops = [
+            {'kind': rng.choice(['single', 'bulk', 'has', 'meta', 'list']), 'keys': [rng.randrange(len(pool)) for _ in range(3)], 'skip': True, 'recent': 2, 'seed': rng.randrange(1 << 20)}
+            for _ in range(rng.randint(1, 4))
+        ]
+        actors.append({'name': 'r0', 'role': 'reader', 'ops': rops, 'fresh': False, 'warm': True, 'linger': True})
     actors.append({'name': 'b', 'role': 'backup', 'ops': [{'auto': rng.random() < 0.6} for _ in range(rng.choice([1, 1, 2]))], 'keep': rng.choice([None, 0, 1])})
     return {
         'engine': 'U',
@@ -201,6 +210,7 @@ def execute(case):  # pylint: disable=too-many-locals,too-many-statements,too-ma
     _TempDir.counter = 0
     backup_utils.random = random.Random(seed + 5)
     manager_cls.stats = None
+    rsyncsim.CLOCK.reset()
     result = {'ok': True, 'violation': None, 'error': None}
     world = None
     sched = None
@@ -261,6 +271,7 @@ def execute(case):  # pylint: disable=too-many-locals,too-many-statements,too-ma
                                 finally:
                                     state['in_backup'] = False
                         finally:
+                            shared.done = True
                             cont.close()
 
                     return run
@@ -270,6 +281,8 @@ def execute(case):  # pylint: disable=too-many-locals,too-many-statements,too-ma
                         sched.spawn(spec['name'], writer_main(world, side, shared, spec, lib), role='writer')
                     elif spec['role'] == 'packer':
                         sched.spawn(spec['name'], packwriter_main(world, side, shared, spec, lib), role='packer')
+                    elif spec['role'] == 'reader':
+                        sched.spawn(spec['name'], reader_main(world, side, shared, spec, lib), role='reader')
                     else:
                         sched.spawn(spec['name'], backup_main(spec), role='reader')
 
